@@ -429,6 +429,7 @@ DIRECTED = [
     "http://example.com/x?source=twit&platform=suite&mode=&output=am&fromref=twitt&sns=t&_ss=&marfeeltn=mp&platform&mode&ref=twitterx&ref=&ref&s=123&s=ab&s=&s&m=2&m=&spref=x&outputtype=am&outputType=amp",
     "http://example.com/x?si=abc&t=42&ab_channel=z&_rdr=1&_rdc=2&cbrd=1&ucbcb=1", "http://notyoutube.com.example.org/watch?v=aBcDeFgHiJk&t=42&si=x", "https://www.youtube.com/results?search_query=cats&t=42&si=x&hl=fr",
     "https://www.facebook.com/x/y?_rdr=1&t=42", "http://example.com/x?amp&amp_js_v=0.1&amp=1&AMP_x=2&usqp=mq&id=1",
+    "http://example.com/" + "a" * 510 + "%41z/b?k=" + "v" * 509 + "%C3%A9w#" + "f" * 511 + "%7Eg", "http://example.com/" + "a" * 511 + "%41z?" + "k" * 510 + "%c3%a9=1", "http://example.com/" + "ab%20" * 300 + "?q=" + "%E2%82%AC" * 200,
     "http://straße.de/x", "http://STRASSE.de/ß", "http://ǅ.example.com/", "http://ﬁn.example.org/x", "http://İstanbul.example.com/",
     "x.cdn.ampproject.org/c/s/mashable.com/2018/a", "a.com/r?url=http%3A%2F%2Fb.org%2Fp", "//a.com/r?url=https%3A%2F%2Fb.org%2Fp&x=1", "a.com/r?u=%2Fp",
     "http://www./path/x", "http://m./abc", "http://amp./x/y", "http://mobile./", "http://www.m./x", "http://www/x", "http://amp-x./q?a=1",
